@@ -359,12 +359,18 @@ func sortInts(a []int) {
 
 var nameChars = []string{"/", "|", ":", ".", "_", "-"}
 
+// rarer but legal characters in sequence names (no whitespace, no comma: the CSV outputs do not quote)
+var oddNameChars = []string{"=", ";", "+", "@", "#", "(", ")", "%", "~", "[", "]"}
+
 // QueryName makes a unique, whitespace-free name.
 func QueryName(r *fw.Rng, i int) string {
 	base := []string{"hCoV-19", "sample", "Q", "England", "seq", "virus"}[r.Intn(6)]
 	s := base
 	for k := 0; k < r.Intn(3); k++ {
 		s += nameChars[r.Intn(len(nameChars))] + strconv.Itoa(r.Intn(9999))
+	}
+	if r.Chance(0.08) {
+		s += oddNameChars[r.Intn(len(oddNameChars))] + "x"
 	}
 	return fmt.Sprintf("%s%s%d", s, nameChars[3+r.Intn(3)], i)
 }
